@@ -241,12 +241,17 @@ Section History.
   Qed.
 
   Lemma norm_entry_ok id srs e0 :
-    prep srs = Some srs -> (e0 = 0 \/ o_is_epsg W (o_upper W srs) = true) -> entry_ok (norm_entry W id srs e0).
+    prep srs = Some srs ->
+    (e0 = 0 \/ (o_is_epsg W (o_upper W srs) = true /\ o_code W (o_upper W srs) = e0)) ->
+    entry_ok (norm_entry W id srs e0).
   Proof.
     intros V H. split; [|rewrite norm_entry_str; destruct (norm_entry_id W id srs e0) as (_ & ->); reflexivity].
     unfold norm_entry. destruct (o_is_epsg W (o_upper W srs)) eqn:E; simpl.
-    - right. symmetry. apply (k_toepsg_code W K); auto.
-    - destruct H as [->|H]; [left; reflexivity | discriminate].
+    - destruct (Z.eqb_spec (o_code W (o_upper W srs)) 0) as [Z0|NZ]; simpl.
+      + (* not a single code (compound definition): [_epsg] stays what it was *)
+        destruct H as [->|(_ & H)]; [left; reflexivity|]. left. rewrite <- H, Z0. reflexivity.
+      + right. symmetry. apply (k_toepsg_code W K); auto.
+    - destruct H as [->|(H & _)]; [left; reflexivity | discriminate].
   Qed.
 
   (** [_make_crs] preserves [good] and returns an entry pyproj-equal to the object asked for *)
@@ -291,7 +296,7 @@ Section History.
       { apply norm_entry_ok; auto. destruct He0 as [-> | ->]; auto. right. simpl in S.
         destruct (k_etext W K e0 srs S) as (A & B & C).
         assert (E : o_is_epsg W (o_upper W (o_epsg_text W e0)) = true) by (rewrite B; auto).
-        pose proof (k_prep_epsg W K _ _ E S). subst. exact E. }
+        pose proof (k_prep_epsg W K _ _ E S). subst. split; [exact E|]. rewrite B. exact C. }
       destruct (norm_entry_id W (sp_id sp nid) srs e0) as (Ei & Es).
       split; [|split; auto; rewrite Es; apply (k_refl W K)].
       constructor; auto.
